@@ -1236,12 +1236,46 @@ func (g *c12gen) restartRatio(id string) {
 	fmt.Fprintf(w, "get %s\nend\n", key(30))
 }
 
+// an old version pushed two or three levels down by range compactions, then the key deleted
+// (directly or by a transaction), everything flushed, the log retired and the database restarted
+// (the in-memory tombstone tracker is empty again), then one to three compaction cycles that
+// promote the deletion marker level by level above the old version; finally the reads
+func (g *c12gen) deepTombstone(id string) {
+	w, r := g.w, g.r
+	fmt.Fprintf(w, "case %s memsize=100000 maxmem=4 ratio=10 sstmax=1000000\n", id)
+	key := func(i int) string { return mkTok([]byte(fmt.Sprintf("k%02d", i))) }
+	k := r.Intn(20)
+	other := (k + 1 + r.Intn(18)) % 20
+	fmt.Fprintf(w, "put %s %s\n", key(k), mkTok([]byte("old")))
+	if r.Intn(2) == 0 {
+		fmt.Fprintf(w, "put %s %s\n", key(other), mkTok([]byte("o")))
+	}
+	fmt.Fprintf(w, "full\n")
+	for d := 2 + r.Intn(2); d > 0; d-- {
+		fmt.Fprintf(w, "range %s %s\n", key(0), key(25))
+	}
+	if r.Intn(3) == 0 {
+		fmt.Fprintf(w, "commit 1\nd %s\n", key(k))
+	} else {
+		fmt.Fprintf(w, "del %s\n", key(k))
+	}
+	fmt.Fprintf(w, "full\nretire\n")
+	for t := 1 + r.Intn(3); t > 0; t-- {
+		fmt.Fprintf(w, "trigger\n")
+	}
+	fmt.Fprintf(w, "reopen\nget %s\nget %s\nend\n", key(k), key(other))
+}
+
 func genC12(w *bufio.Writer, seed int64, n int, tier string) {
 	r := rand.New(rand.NewSource(seed*7919 + 12))
 	for ci := 0; ci < n; ci++ {
 		g := &c12gen{w: w, r: r}
 		if ci%16 == 5 {
 			g.restartRatio(fmt.Sprintf("c12-%d-%d", seed, ci))
+			continue
+		}
+		if ci%16 == 9 {
+			g.deepTombstone(fmt.Sprintf("c12-%d-%d", seed, ci))
 			continue
 		}
 		if ci%4 == 2 {
